@@ -17,68 +17,38 @@ Local Open Scope N_scope.
 Section Residue.
 Variable lower : str -> str.
 
-(* content_length after the header loop: untouched, or int(v) of a
-   Content-Length pair of THIS list (also when a later pair is refused) *)
-Definition clen_from (hs : list (pyobj * pyobj)) (old new : option Z) : Prop :=
-  new = old
-  \/ exists k v z, In (PStr k, PStr v) hs /\ beqb (lower k) (lit "content-length") = true
-                   /\ has_crlf k = false /\ has_crlf v = false
-                   /\ py_int v = Some z /\ new = Some z.
-
-Lemma clen_from_cons h hs old new : clen_from hs old new -> clen_from (h :: hs) old new.
-Proof.
-  intros [H|(k & v & z & Hin & H)]; [left; auto|right]. exists k, v, z. split; [right; auto|auto].
-Qed.
-
-Lemma sr_headers_clen hs : forall t acc,
-  clen_from hs (t_clen t) (t_clen (fst (sr_headers lower t hs acc))).
-Proof.
-  induction hs as [|[k v] hs IH]; intros t acc; cbn [sr_headers].
-  - left. reflexivity.
-  - destruct k as [k|]; [|left; reflexivity]. destruct v as [v|]; [|left; reflexivity].
-    destruct (has_crlf v) eqn:Ev; [left; reflexivity|]. destruct (has_crlf k) eqn:Ek; [left; reflexivity|].
-    destruct (beqb (lower k) _) eqn:Ecl.
-    + destruct (py_int v) as [z|] eqn:Ez; [|left; reflexivity].
-      destruct (IH (set_clen (Some z) t) (acc ++ [(k, v)])) as [H|H].
-      * right. exists k, v, z. split; [left; reflexivity|]. repeat split; auto.
-      * right. destruct H as (k' & v' & z' & Hin & H). exists k', v', z'. split; [right; auto|auto].
-    + destruct (existsb (beqb (lower k)) hop_by_hop); [left; reflexivity|].
-      apply clen_from_cons. apply IH.
-Qed.
-
 (* Every raise site of start_response.  Either the call was refused at the door
    (second call without exc_info; exc_info once output has begun) and the task
    is untouched, or: complete is True; the fields are the old ones, or [] when
    exc_info was given; the status is the old one, or the call's own status once
-   it passed the isinstance and CR/LF checks; content_length is the old one or
-   the int() of a Content-Length pair of this very list.  response_headers is
-   never extended by a call that raises. *)
+   it passed the isinstance and CR/LF checks; content_length is the old one, or
+   None when exc_info cleared the headers -- never a length declared by the
+   refused call (before /repo fix 5926e3b it could be the int() of a
+   Content-Length pair of the refused list).  response_headers is never
+   extended by a call that raises. *)
 Theorem start_response_residue t status headers exc t' e :
   start_response lower t status headers exc = (t', Exn e) ->
   t' = t
   \/ (t_complete t' = true
       /\ t_rh t' = match exc with Some _ => [] | None => t_rh t end
       /\ (exc <> None -> t_wrote_header t = false)
-      /\ ((bad_obj status = true /\ t_status t' = t_status t /\ t_clen t' = t_clen t)
-          \/ (exists s, status = PStr s /\ has_crlf s = false /\ t_status t' = s
-                        /\ clen_from headers (t_clen t) (t_clen t')))).
+      /\ t_clen t' = match exc with Some _ => None | None => t_clen t end
+      /\ ((bad_obj status = true /\ t_status t' = t_status t)
+          \/ (exists s, status = PStr s /\ has_crlf s = false /\ t_status t' = s))).
 Proof.
   unfold start_response. intro H.
   destruct (t_complete t && _); [left; inversion H; auto|].
-  set (t1 := match exc with Some _ => if t_wrote_header t then t else set_rh [] t | None => t end).
   destruct exc as [e0|].
   - destruct (t_wrote_header t) eqn:Ew; [left; inversion H; auto|]. right.
     cbn zeta in H. destruct status as [s|]; [|inversion H; subst; cbn; repeat split; auto].
     destruct (has_crlf s) eqn:Es; [inversion H; subst; cbn; repeat split; auto|].
-    pose proof (sr_headers_frame lower headers (set_status s (set_complete true (set_rh [] t))) []) as F.
-    pose proof (sr_headers_clen headers (set_status s (set_complete true (set_rh [] t))) []) as C.
+    pose proof (sr_headers_frame lower headers (set_status s (set_complete true (set_clen None (set_rh [] t)))) []) as F.
     cbn zeta in F. destruct (sr_headers lower _ headers []) as [t4 [hs|e1]]; [discriminate|].
     inversion H; subst. cbn [fst] in *. destruct F as (F1 & F2 & F3 & _). cbn in F1, F2, F3.
     repeat split; auto. right. exists s. repeat split; auto.
   - right. cbn zeta in H. destruct status as [s|]; [|inversion H; subst; cbn; repeat split; auto; intro X; congruence].
     destruct (has_crlf s) eqn:Es; [inversion H; subst; cbn; repeat split; auto; intro X; congruence|].
     pose proof (sr_headers_frame lower headers (set_status s (set_complete true t)) []) as F.
-    pose proof (sr_headers_clen headers (set_status s (set_complete true t)) []) as C.
     cbn zeta in F. destruct (sr_headers lower _ headers []) as [t4 [hs|e1]]; [discriminate|].
     inversion H; subst. cbn [fst] in *. destruct F as (F1 & F2 & F3 & _). cbn in F1, F2, F3.
     repeat split; auto; try (intro X; congruence). right. exists s. repeat split; auto.
@@ -109,8 +79,8 @@ Proof.
     + rewrite Est. unfold offending in Hoff. apply orb_false_iff in Hoff as [Hb _].
       destruct status as [s|]; [|discriminate]. cbn in Hb. cbn [str_of]. apply Cs; auto.
     + rewrite Erh. apply Forall_app. split; [destruct exc; [constructor|exact Hf]|auto].
-  - apply start_response_residue in E as [->|(_ & Erh & _ & Hst)]; [split; auto|]. split.
-    + destruct Hst as [(_ & -> & _)|(s & -> & Hcl & -> & _)]; auto.
+  - apply start_response_residue in E as [->|(_ & Erh & _ & _ & Hst)]; [split; auto|]. split.
+    + destruct Hst as [(_ & ->)|(s & -> & Hcl & ->)]; auto.
     + rewrite Erh. destruct exc; [constructor|exact Hf].
 Qed.
 
@@ -642,8 +612,9 @@ Lemma swallowed_refusals_instances :
 Proof. vm_compute. repeat split; reflexivity. Qed.
 
 (* What a refused call leaves behind is NOT nothing: a status that passed its
-   own checks and the int() of a Content-Length pair stay in the task when a
-   LATER pair of the same call is refused.  The stricter reading "the status on
+   own checks stays in the task when a pair of the same call is refused (the
+   int() of a Content-Length pair of the refused call stayed too, and cut the
+   body to "hel", until /repo fix 5926e3b).  The stricter reading "the status on
    the wire belongs to a call that start_response accepted as a whole (or is
    the default)" is false of the code as it is: *)
 Definition residue_app : app :=
@@ -666,9 +637,9 @@ Definition strict_status_statement : Prop :=
 
 Lemma residue_instance :
   o_writes (run_task sample_cfg sample_req residue_app None) =
-    [WBytes (lit "HTTP/1.1 404 Not Found" ++ CRLF ++ lit "Content-Length: 3" ++ CRLF
+    [WBytes (lit "HTTP/1.1 404 Not Found" ++ CRLF ++ lit "Content-Length: 5" ++ CRLF
              ++ lit "Date: Thu, 01 Jan 2026 00:00:00 GMT" ++ CRLF ++ lit "Server: waitress" ++ CRLF ++ CRLF);
-     WBytes (lit "hel")].
+     WBytes (lit "hello")].
 Proof. vm_compute. reflexivity. Qed.
 
 Lemma strict_status_refuted : ~ strict_status_statement.
